@@ -173,11 +173,14 @@ func (c *fanClient) waitType(t uint8) {
 
 // fanout: nSubs connections subscribe to a/; one publisher writes nMsgs PUBLISH packets back to back;
 // what every subscriber received, in order.
-func fanout(nSubs, nMsgs int) (sent [][]byte, recv [][][]byte) {
+func fanout(nSubs, nMsgs, readRate int) (sent [][]byte, recv [][][]byte) {
 	lic := license.NewV3()
 	c := config.NewDefault().(*config.Config)
 	c.License = lic.String()
 	c.Cluster = nil
+	if readRate > 0 {
+		c.Limit.ReadRate = readRate // the publisher goes over its read rate: it is slowed down, nothing is dropped
+	}
 	svc, err := broker.NewService(context.Background(), c)
 	if err != nil {
 		panic(err)
@@ -215,7 +218,7 @@ func fanout(nSubs, nMsgs int) (sent [][]byte, recv [][][]byte) {
 	go p.conn.Write(all.Bytes())
 	for _, s := range subs {
 		var got [][]byte
-		timeout := time.After(4 * time.Second)
+		timeout := time.After(10 * time.Second)
 	loop:
 		for len(got) < nMsgs {
 			select {
@@ -571,13 +574,17 @@ func main() {
 		if i == 0 {
 			nSubs = 14
 		}
-		sent, recv := fanout(nSubs, nMsgs)
+		readRate := 0
+		if i == 1 {
+			nSubs, nMsgs, readRate = 3, 50, 20
+		}
+		sent, recv := fanout(nSubs, nMsgs, readRate)
 		var rt []string
 		for _, g := range recv {
 			rt = append(rt, bytesList(g))
 		}
 		sh.Add(vlib.App("CFan", bytesList(sent), vlib.List(rt)),
-			map[string]interface{}{"op": "wide channel", "subscribers": nSubs, "messages": nMsgs}, "broker/fan-out", true)
+			map[string]interface{}{"op": "wide channel", "subscribers": nSubs, "messages": nMsgs, "read_rate": readRate}, "broker/fan-out", true)
 	}
-	sh.Finish("random streams split into socket reads of 1-40 bytes; 0-3 sniffing rounds with read sizes 1-12, then post-sniffing reads; the real HTTP / prefix / any matchers; WebSocket messages (binary, text, ping, pong, close; empty payloads) read with buffers of 1-12 bytes; write/flush sequences at rates 1, 2, 3, 1000 incl. limiter refill, packets of 1-6 and of 8192-20000 bytes; WebSocket writes of up to 65536 bytes; 6 concurrent writers x 400 packets against a busy flusher; 6 concurrent senders x 300 frames through the WebSocket transport over a one-writer-at-a-time socket; a real broker with 3-20 subscribers of one channel and a publisher writing 60 PUBLISH packets back to back; non-trivial: non-empty stream / message list")
+	sh.Finish("random streams split into socket reads of 1-40 bytes; 0-3 sniffing rounds with read sizes 1-12, then post-sniffing reads; the real HTTP / prefix / any matchers; WebSocket messages (binary, text, ping, pong, close; empty payloads) read with buffers of 1-12 bytes; write/flush sequences at rates 1, 2, 3, 1000 incl. limiter refill, packets of 1-6 and of 8192-20000 bytes; WebSocket writes of up to 65536 bytes; 6 concurrent writers x 400 packets against a busy flusher; 6 concurrent senders x 300 frames through the WebSocket transport over a one-writer-at-a-time socket; a real broker with 3-20 subscribers of one channel and a publisher writing 60 PUBLISH packets back to back (once with a read rate of 20 / s: slowed down, nothing dropped); non-trivial: non-empty stream / message list")
 }
